@@ -39,6 +39,17 @@ Theorem flipped_node : ∀ (g : circuit) x y o (v : val),
   consistent (<[x := mk_node Not o {[y]}]> g) v ↔ consistent (delete x g) v ∧ v x = negb (v y).
 Proof. exact flip_node_consistent. Qed.
 Print Assumptions flipped_node.
+(* the three API calls `disconnect(fanin(c1_n), c1_n); set_type(c1_n, "not"); connect(c0_n, c1_n)` of the model have exactly that
+   closed form, so: after the flip step, c1_n is the complement of c0_n and all other nodes are constrained as before *)
+Theorem flip_step_spec : ∀ (g g' : circuit) n i j (v : val),
+  g !! ("c1_" ++ n) = Some i → g !! ("c0_" ++ n) = Some j → n_ty j ≠ BbIn → n_ty j ≠ BbOut →
+  flip_node g n = Ok g' →
+  consistent g' v ↔ consistent (delete ("c1_" ++ n) g) v ∧ v ("c1_" ++ n) = negb (v ("c0_" ++ n)).
+Proof.
+  intros g g' n i j v Hi Hj H1 H2. rewrite (flip_node_closed_form g n i j Hi Hj H1 H2). intros [= <-].
+  apply flip_node_consistent.
+Qed.
+Print Assumptions flip_step_spec.
 (* ... and in context: the second copy computes c with n inverted *)
 Theorem second_copy_inverted : ∀ c n (E : gset string) T, closed c → acyclic c → inputs_only c → n ∈ dom c → sens_shape c n E T →
   ∀ v, consistent T v → ∀ x, x ∈ dom c → v ("c0_" ++ x) = evalc c v x ∧ v ("c1_" ++ x) = inverted c n v x.
